@@ -17,9 +17,9 @@ theorem aspectMeet_eq32 (v : ViewBox F32) (dx dy ax ay : F32) :
 
 theorem aspectSlice_eq32 (v : ViewBox F32) (dx dy ax ay : F32) :
     v.aspectSlice dx dy ax ay =
-      ((place dx (sliceSize v.size.1 v.size.2 dx dy).1 ax).1, (place dy (sliceSize v.size.1 v.size.2 dx dy).2 ay).1,
-       (place dx (sliceSize v.size.1 v.size.2 dx dy).1 ax).2, (place dy (sliceSize v.size.1 v.size.2 dx dy).2 ay).2) := by
-  unfold ViewBox.aspectSlice sliceSize place ViewBox.size
+      ((placeS dx (sliceSize v.size.1 v.size.2 dx dy).1 ax).1, (placeS dy (sliceSize v.size.1 v.size.2 dx dy).2 ay).1,
+       (placeS dx (sliceSize v.size.1 v.size.2 dx dy).1 ax).2, (placeS dy (sliceSize v.size.1 v.size.2 dx dy).2 ay).2) := by
+  unfold ViewBox.aspectSlice sliceSize placeS one32 ViewBox.size
   simp only
 
 theorem aspectMeet_eqQ (v : ViewBox ℚ) (dx dy ax ay : ℚ) :
@@ -40,7 +40,7 @@ theorem aspectSlice_eqQ (v : ViewBox ℚ) (dx dy ax ay : ℚ) :
          (sliceSizeQ (v.maxX - v.minX) (v.maxY - v.minY) dx dy).1,
        (dy - (sliceSizeQ (v.maxX - v.minX) (v.maxY - v.minY) dx dy).2) * ay +
          (sliceSizeQ (v.maxX - v.minX) (v.maxY - v.minY) dx dy).2) := by
-  rw [FitQ.aspectSlice_def]; rfl
+  rw [FitQ.aspectSlice_def]; simp only [FitQ.far_edge]; rfl
 
 
 /-! ## one dimension -/
@@ -55,8 +55,6 @@ structure Placed (mn mx : F32) (D A S : ℚ) : Prop where
   amax : |val mx - (A * (D - S) + S)| ≤ 7 * u * (D + S)
   /-- if the exact side fits: within the target enlarged by `4u·D` below, `5u·D` above -/
   inside : S ≤ D → -(4 * u * D) ≤ val mn ∧ val mx ≤ (1 + 5 * u) * D
-  /-- if the exact side covers: the minimum is at most `4u·D`, the maximum at least `D − 6u·(D + S)` -/
-  covers : D ≤ S → val mn ≤ 4 * u * D ∧ D - 6 * u * (D + S) ≤ val mx
 
 theorem place_close {d s a : F32} {S : ℚ} (fd : Fn d) (nd : NR (val d)) (fa : Fn a) (ha0 : 0 ≤ val a)
     (ha1 : val a ≤ 1) (hs : Close3 s S) (nS : NR S) :
@@ -73,7 +71,40 @@ theorem place_close {d s a : F32} {S : ℚ} (fd : Fn d) (nd : NR (val d)) (fa : 
   have hN : minN ≤ val d := by have := nd.1; have := minN_pos; linarith
   obtain ⟨f1, f2, hq⟩ := place_float fd hs.1 fa hd hsp ha0 ha1 hsum
   obtain ⟨a1, a2⟩ := hq.align hd hsp ha0 ha1 hN hS hsS
-  exact ⟨f1, f2, a1, a2, fun h => hq.inside hd hsp hS hsS h, fun h => hq.covers hd hsp hS hsS h⟩
+  exact ⟨f1, f2, a1, a2, fun h => hq.inside hd hsp hS hsS h⟩
+
+/-- what is proved of one side placed by slice -/
+structure PlacedS (mn mx : F32) (d s : F32) (A S : ℚ) : Prop where
+  fmn : Fn mn
+  fmx : Fn mx
+  /-- alignment: the minimum is `A·(D − S)` up to `6u·(D + S)` -/
+  amin : |val mn - A * (val d - S)| ≤ 6 * u * (val d + S)
+  /-- … and the maximum `A·(D − S) + S` up to `8u·(D + S)` -/
+  amax : |val mx - (A * (val d - S) + S)| ≤ 8 * u * (val d + S)
+  /-- if the exact side covers: up to `4u`/`5u` of the TARGET side -/
+  covers : val d ≤ S → val mn ≤ 4 * u * val d ∧ (1 - 5 * u) * val d ≤ val mx
+  /-- if the FLOAT side covers: exactly -/
+  covers_exact : val d ≤ val s → val mn ≤ 0 ∧ val d ≤ val mx
+  /-- if the float side is short by at most `2u` of the target side: up to `3u`/`4u` of it -/
+  covers_ulp : (1 - 2 * u) * val d ≤ val s → val mn ≤ 3 * u * val d ∧ (1 - 4 * u) * val d ≤ val mx
+
+theorem placeS_close {d s a : F32} {S : ℚ} (fd : Fn d) (nd : NR (val d)) (fa : Fn a) (ha0 : 0 ≤ val a)
+    (ha1 : val a ≤ 1) (hs : Close3 s S) (nS : NR S) :
+    PlacedS (placeS d s a).1 (placeS d s a).2 d s (val a) S := by
+  have hS := nS.pos
+  have hd := nd.pos
+  have hsS := hs.abs hS.le
+  obtain ⟨s1, s2⟩ := abs_le.1 hsS
+  have hmax := maxv_pos
+  have hsp : 0 < val s := hs.2.pos (by unfold u; norm_num) hS
+  have hsum : val d + val s ≤ maxv / 3 := by
+    have := nd.2; have := nS.2
+    unfold u at *; linarith
+  have hN : minN ≤ val d := by have := nd.1; have := minN_pos; linarith
+  obtain ⟨f1, f2, hq⟩ := placeS_float fd hs.1 fa hd hsp ha0 ha1 hsum
+  obtain ⟨a1, a2⟩ := hq.align hd hsp ha0 ha1 hN hS hsS
+  exact ⟨f1, f2, a1, a2, fun h => hq.covers hd hsp hS hsS h, fun h => hq.covers_exact hd hsp h,
+    fun h => hq.covers_ulp hd hsp h⟩
 
 /-! ## exact facts about the fitted size -/
 
@@ -160,8 +191,8 @@ structure SliceF32 (dx dy ax ay : F32) (W H : ℚ) (w h x0 y0 x1 y1 : F32) : Pro
   size : Close3 w W ∧ Close3 h H
   size_touch : w = dx ∨ h = dy
   touch : (val x0 = 0 ∧ x1 = dx) ∨ (val y0 = 0 ∧ y1 = dy)
-  x : Placed x0 x1 (val dx) (val ax) W
-  y : Placed y0 y1 (val dy) (val ay) H
+  x : PlacedS x0 x1 dx w (val ax) W
+  y : PlacedS y0 y1 dy h (val ay) H
   /-- (d) the exact rectangle covers, hence the `covers` clauses of `x` and `y` apply -/
   covers : val dx ≤ W ∧ val dy ≤ H
 
@@ -169,16 +200,56 @@ theorem slice_f32 {vw vh dx dy ax ay : F32} (h : Hyp vw vh dx dy ax ay) :
     SliceF32 dx dy ax ay (sliceSizeQ (val vw) (val vh) (val dx) (val dy)).1
       (sliceSizeQ (val vw) (val vh) (val dx) (val dy)).2
       (sliceSize vw vh dx dy).1 (sliceSize vw vh dx dy).2
-      (place dx (sliceSize vw vh dx dy).1 ax).1 (place dy (sliceSize vw vh dx dy).2 ay).1
-      (place dx (sliceSize vw vh dx dy).1 ax).2 (place dy (sliceSize vw vh dx dy).2 ay).2 := by
+      (placeS dx (sliceSize vw vh dx dy).1 ax).1 (placeS dy (sliceSize vw vh dx dy).2 ay).1
+      (placeS dx (sliceSize vw vh dx dy).1 ax).2 (placeS dy (sliceSize vw vh dx dy).2 ay).2 := by
   obtain ⟨c1, c2, c3⟩ := sliceSize_close h.hvw h.hvh h.hdx h.hdy h.range
   obtain ⟨n1, n2, l1, l2⟩ := sliceSizeQ_facts h.hvw.2 h.hvh.2 h.hdx.2 h.hdy.2 h.range
-  refine ⟨⟨c1, c2⟩, c3, ?_, place_close h.hdx.1 h.range.tx h.hax.1 h.hax.2.1 h.hax.2.2 c1 n1,
-    place_close h.hdy.1 h.range.ty h.hay.1 h.hay.2.1 h.hay.2.2 c2 n2, ⟨l1, l2⟩⟩
+  refine ⟨⟨c1, c2⟩, c3, ?_, placeS_close h.hdx.1 h.range.tx h.hax.1 h.hax.2.1 h.hax.2.2 c1 n1,
+    placeS_close h.hdy.1 h.range.ty h.hay.1 h.hay.2.1 h.hay.2.2 c2 n2, ⟨l1, l2⟩⟩
   rcases c3 with e | e
-  · left; rw [e]; exact place_touch h.hdx.1 h.hax.1 h.hdx.2 h.hax.2.1 h.hax.2.2
-  · right; rw [e]; exact place_touch h.hdy.1 h.hay.1 h.hdy.2 h.hay.2.1 h.hay.2.2
+  · left; rw [e]; exact placeS_touch h.hdx.1 h.hax.1 h.hdx.2 h.hax.2.1 h.hax.2.2
+  · right; rw [e]; exact placeS_touch h.hdy.1 h.hay.1 h.hdy.2 h.hay.2.1 h.hay.2.2
 
+/-- **`slice_covers_exact`** — the point of measuring the far edges from the target's far edges.
+    With `(w, h) = sliceSize vw vh dx dy` and the four returned corners:
+    * in the branch `dx/dy < vw/vh` (float test): `dx ≤ w` and `h = dy` as floats, and the result covers the target
+      EXACTLY in both dimensions: `minX ≤ 0`, `dx ≤ maxX`, `minY = ±0`, `maxY = dy`;
+    * in the other branch: `w = dx`, `minX = ±0`, `maxX = dx` exactly; the float height `h = rnd(dx/vbAR)` satisfies
+      `(1 − 2u)·dy ≤ h`; if `dy ≤ h` the result covers exactly in y too, and in any case
+      `minY ≤ 3u·dy` and `(1 − 4u)·dy ≤ maxY`. -/
+theorem slice_covers_exact {vw vh dx dy ax ay : F32} (h : Hyp vw vh dx dy ax ay) :
+    (dx / dy < vw / vh →
+      val dx ≤ val (sliceSize vw vh dx dy).1 ∧ (sliceSize vw vh dx dy).2 = dy ∧
+      val (placeS dx (sliceSize vw vh dx dy).1 ax).1 ≤ 0 ∧ val dx ≤ val (placeS dx (sliceSize vw vh dx dy).1 ax).2 ∧
+      val (placeS dy (sliceSize vw vh dx dy).2 ay).1 = 0 ∧ (placeS dy (sliceSize vw vh dx dy).2 ay).2 = dy) ∧
+    (¬ dx / dy < vw / vh →
+      (sliceSize vw vh dx dy).1 = dx ∧ (1 - 2 * u) * val dy ≤ val (sliceSize vw vh dx dy).2 ∧
+      val (placeS dx (sliceSize vw vh dx dy).1 ax).1 = 0 ∧ (placeS dx (sliceSize vw vh dx dy).1 ax).2 = dx ∧
+      (val dy ≤ val (sliceSize vw vh dx dy).2 →
+        val (placeS dy (sliceSize vw vh dx dy).2 ay).1 ≤ 0 ∧ val dy ≤ val (placeS dy (sliceSize vw vh dx dy).2 ay).2) ∧
+      val (placeS dy (sliceSize vw vh dx dy).2 ay).1 ≤ 3 * u * val dy ∧
+      (1 - 4 * u) * val dy ≤ val (placeS dy (sliceSize vw vh dx dy).2 ay).2) := by
+  have M := slice_f32 h
+  have R := ratios h.hvw h.hvh h.hdx h.hdy h.range
+  constructor
+  · intro hb
+    have e : sliceSize vw vh dx dy = (dy * (vw / vh), dy) := by unfold sliceSize; rw [if_pos hb]
+    have fw : Fn (dy * (vw / vh)) := by have := M.size.1.1; rw [e] at this; exact this
+    have hge := slice_w_ge h.hdx h.hdy R.fR R.fC fw hb
+    have hx := M.x.covers_exact
+    rw [e] at hx ⊢
+    obtain ⟨x1, x2⟩ := hx hge
+    obtain ⟨t1, t2⟩ := placeS_touch h.hdy.1 h.hay.1 h.hdy.2 h.hay.2.1 h.hay.2.2
+    exact ⟨hge, rfl, x1, x2, t1, t2⟩
+  · intro hb
+    have e : sliceSize vw vh dx dy = (dx, dx / (vw / vh)) := by unfold sliceSize; rw [if_neg hb]
+    obtain ⟨_, hn⟩ := slice_h_near h.hvw h.hvh h.hdx h.hdy h.range hb
+    have hy1 := M.y.covers_exact
+    have hy2 := M.y.covers_ulp
+    rw [e] at hy1 hy2 ⊢
+    obtain ⟨t1, t2⟩ := placeS_touch h.hdx.1 h.hax.1 h.hdx.2 h.hax.2.1 h.hax.2.2
+    obtain ⟨y1, y2⟩ := hy2 hn
+    exact ⟨rfl, hn, t1, t2, hy1, y1, y2⟩
 
 /-! ## a concrete sufficient condition: all four sizes in `[2^-30, 2^30]` -/
 
@@ -236,12 +307,6 @@ theorem bval_hi30 : bval 1317011456 = 1073741824 := by
   have h1 : negB32 1317011456 = false := by decide
   have h2 : mantB 1317011456 = 8388608 := by decide
   have h3 : expB 1317011456 = 7 := by decide
-  unfold bval sval; rw [h1, h2, h3]; unfold pow2; norm_num
-
-theorem bval_one : bval 1065353216 = 1 := by
-  have h1 : negB32 1065353216 = false := by decide
-  have h2 : mantB 1065353216 = 8388608 := by decide
-  have h3 : expB 1065353216 = -23 := by decide
   unfold bval sval; rw [h1, h2, h3]; unfold pow2; norm_num
 
 theorem key_pos (b : Nat) (h : b < 2147483648) : key b = b := by unfold key; rw [if_neg (by omega)]
@@ -303,11 +368,15 @@ def CornersNear (r : F32 × F32 × F32 × F32) (q : ℚ × ℚ × ℚ × ℚ) (d
 def InsideNear (r : F32 × F32 × F32 × F32) (dx dy : ℚ) : Prop :=
   -(4 * u * dx) ≤ val r.1 ∧ val r.2.2.1 ≤ (1 + 5 * u) * dx ∧ -(4 * u * dy) ≤ val r.2.1 ∧ val r.2.2.2 ≤ (1 + 5 * u) * dy
 
-/-- (d, slice) the computed rectangle covers the target up to `4u·(target side)` at the minima and
-    `6u·(target side + fitted side)` at the maxima -/
-def CoversNear (r : F32 × F32 × F32 × F32) (q : ℚ × ℚ × ℚ × ℚ) (dx dy : ℚ) : Prop :=
-  val r.1 ≤ 4 * u * dx ∧ dx - 6 * u * (dx + (q.2.2.1 - q.1)) ≤ val r.2.2.1 ∧
-  val r.2.1 ≤ 4 * u * dy ∧ dy - 6 * u * (dy + (q.2.2.2 - q.2.1)) ≤ val r.2.2.2
+/-- (d, alignment, slice) as `CornersNear` with `8u` at the maxima (three roundings behind the far edge) -/
+def CornersNearS (r : F32 × F32 × F32 × F32) (q : ℚ × ℚ × ℚ × ℚ) (dx dy : ℚ) : Prop :=
+  |val r.1 - q.1| ≤ 6 * u * (dx + (q.2.2.1 - q.1)) ∧ |val r.2.2.1 - q.2.2.1| ≤ 8 * u * (dx + (q.2.2.1 - q.1)) ∧
+  |val r.2.1 - q.2.1| ≤ 6 * u * (dy + (q.2.2.2 - q.2.1)) ∧ |val r.2.2.2 - q.2.2.2| ≤ 8 * u * (dy + (q.2.2.2 - q.2.1))
+
+/-- (d, slice) the computed rectangle covers the target shrunk by `4u` of its size at the minima and `5u` at
+    the maxima — relative to the TARGET size -/
+def CoversNear (r : F32 × F32 × F32 × F32) (dx dy : ℚ) : Prop :=
+  val r.1 ≤ 4 * u * dx ∧ (1 - 5 * u) * dx ≤ val r.2.2.1 ∧ val r.2.1 ≤ 4 * u * dy ∧ (1 - 5 * u) * dy ≤ val r.2.2.2
 
 theorem aspectMeet_f32 (v : ViewBox F32) (vq : ViewBox ℚ) (dx dy ax ay : F32) (href : Ref v vq)
     (h : Hyp v.size.1 v.size.2 dx dy ax ay) :
@@ -326,21 +395,77 @@ theorem aspectMeet_f32 (v : ViewBox F32) (vq : ViewBox ℚ) (dx dy ax ay : F32) 
 theorem aspectSlice_f32 (v : ViewBox F32) (vq : ViewBox ℚ) (dx dy ax ay : F32) (href : Ref v vq)
     (h : Hyp v.size.1 v.size.2 dx dy ax ay) :
     Fin4 (v.aspectSlice dx dy ax ay) ∧
-    CornersNear (v.aspectSlice dx dy ax ay) (vq.aspectSlice (val dx) (val dy) (val ax) (val ay)) (val dx) (val dy) ∧
-    CoversNear (v.aspectSlice dx dy ax ay) (vq.aspectSlice (val dx) (val dy) (val ax) (val ay)) (val dx) (val dy) ∧
+    CornersNearS (v.aspectSlice dx dy ax ay) (vq.aspectSlice (val dx) (val dy) (val ax) (val ay)) (val dx) (val dy) ∧
+    CoversNear (v.aspectSlice dx dy ax ay) (val dx) (val dy) ∧
     Touches (v.aspectSlice dx dy ax ay) dx dy := by
   have M := slice_f32 h
   rw [aspectSlice_eq32, aspectSlice_eqQ, href.1, href.2]
-  unfold Fin4 CornersNear CoversNear Touches
+  unfold Fin4 CornersNearS CoversNear Touches
   simp only [add_sub_cancel_left, mul_comm _ (val ax), mul_comm _ (val ay)]
   obtain ⟨i1, i2⟩ := M.x.covers M.covers.1
   obtain ⟨j1, j2⟩ := M.y.covers M.covers.2
   exact ⟨⟨M.x.fmn, M.y.fmn, M.x.fmx, M.y.fmx⟩, ⟨M.x.amin, M.x.amax, M.y.amin, M.y.amax⟩, ⟨i1, i2, j1, j2⟩, M.touch⟩
 
+theorem zero32_fin : Fn (0 : F32) := by decide
+theorem zero32_val : val (0 : F32) = 0 := by
+  have : (0 : F32).nb = 0 := by decide
+  unfold val; rw [this]; exact bval_zero0
+
+/-- **exact covering by the model function, as float comparisons** (no tolerance): in the branch
+    `dx/dy < vbAR` the returned rectangle covers the target in both dimensions; in the other branch it covers it
+    in x, and in y whenever the float height `rnd(dx/vbAR)` is at least `dy` — otherwise up to `3u·dy` below and
+    `4u·dy` above (the float height is then short of `dy` by at most `2u·dy`). -/
+theorem aspectSlice_covers_exact (v : ViewBox F32) (dx dy ax ay : F32)
+    (h : Hyp v.size.1 v.size.2 dx dy ax ay) :
+    (dx / dy < v.size.1 / v.size.2 →
+      (v.aspectSlice dx dy ax ay).1 ≤ 0 ∧ dx ≤ (v.aspectSlice dx dy ax ay).2.2.1 ∧
+      (v.aspectSlice dx dy ax ay).2.1 ≤ 0 ∧ dy ≤ (v.aspectSlice dx dy ax ay).2.2.2) ∧
+    (¬ dx / dy < v.size.1 / v.size.2 →
+      (v.aspectSlice dx dy ax ay).1 ≤ 0 ∧ dx ≤ (v.aspectSlice dx dy ax ay).2.2.1 ∧
+      (dy ≤ dx / (v.size.1 / v.size.2) →
+        (v.aspectSlice dx dy ax ay).2.1 ≤ 0 ∧ dy ≤ (v.aspectSlice dx dy ax ay).2.2.2) ∧
+      val (v.aspectSlice dx dy ax ay).2.1 ≤ 3 * u * val dy ∧
+      (1 - 4 * u) * val dy ≤ val (v.aspectSlice dx dy ax ay).2.2.2) := by
+  have M := slice_f32 h
+  obtain ⟨c1, c2⟩ := slice_covers_exact h
+  rw [aspectSlice_eq32]
+  simp only
+  have z := zero32_val
+  constructor
+  · intro hb
+    obtain ⟨_, _, x1, x2, y1, y2⟩ := c1 hb
+    refine ⟨(le_iff_val M.x.fmn zero32_fin).2 (by rw [z]; exact x1), (le_iff_val h.hdx.1 M.x.fmx).2 x2,
+      (le_iff_val M.y.fmn zero32_fin).2 (by rw [z]; exact le_of_eq y1), ?_⟩
+    rw [y2]; exact (le_iff_val h.hdy.1 h.hdy.1).2 (le_refl _)
+  · intro hb
+    obtain ⟨e, _, x1, x2, y1, y2, y3⟩ := c2 hb
+    have e2 : (sliceSize v.size.1 v.size.2 dx dy).2 = dx / (v.size.1 / v.size.2) := by
+      unfold sliceSize; rw [if_neg hb]
+    have fh : Fn (dx / (v.size.1 / v.size.2)) := by rw [← e2]; exact M.size.2.1
+    refine ⟨(le_iff_val M.x.fmn zero32_fin).2 (by rw [z]; exact le_of_eq x1), ?_, ?_, y2, y3⟩
+    · rw [x2]; exact (le_iff_val h.hdx.1 h.hdx.1).2 (le_refl _)
+    · intro hge
+      have hv : val dy ≤ val (sliceSize v.size.1 v.size.2 dx dy).2 := by
+        rw [e2]; exact (le_iff_val h.hdy.1 fh).1 hge
+      obtain ⟨q1, q2⟩ := y1 hv
+      exact ⟨(le_iff_val M.y.fmn zero32_fin).2 (by rw [z]; exact q1), (le_iff_val h.hdy.1 M.y.fmx).2 q2⟩
+
 /-- the returned width and height (`max − min` of the float corners, exactly) against the exact ones -/
 theorem CornersNear.size {r : F32 × F32 × F32 × F32} {q : ℚ × ℚ × ℚ × ℚ} {dx dy : ℚ} (h : CornersNear r q dx dy) :
     |(val r.2.2.1 - val r.1) - (q.2.2.1 - q.1)| ≤ 13 * u * (dx + (q.2.2.1 - q.1)) ∧
     |(val r.2.2.2 - val r.2.1) - (q.2.2.2 - q.2.1)| ≤ 13 * u * (dy + (q.2.2.2 - q.2.1)) := by
+  obtain ⟨h1, h2, h3, h4⟩ := h
+  obtain ⟨a1, a2⟩ := abs_le.1 h1
+  obtain ⟨b1, b2⟩ := abs_le.1 h2
+  obtain ⟨c1, c2⟩ := abs_le.1 h3
+  obtain ⟨d1, d2⟩ := abs_le.1 h4
+  constructor
+  · exact abs_le.2 ⟨by linarith, by linarith⟩
+  · exact abs_le.2 ⟨by linarith, by linarith⟩
+
+theorem CornersNearS.size {r : F32 × F32 × F32 × F32} {q : ℚ × ℚ × ℚ × ℚ} {dx dy : ℚ} (h : CornersNearS r q dx dy) :
+    |(val r.2.2.1 - val r.1) - (q.2.2.1 - q.1)| ≤ 14 * u * (dx + (q.2.2.1 - q.1)) ∧
+    |(val r.2.2.2 - val r.2.1) - (q.2.2.2 - q.2.1)| ≤ 14 * u * (dy + (q.2.2.2 - q.2.1)) := by
   obtain ⟨h1, h2, h3, h4⟩ := h
   obtain ⟨a1, a2⟩ := abs_le.1 h1
   obtain ⟨b1, b2⟩ := abs_le.1 h2
